@@ -15,6 +15,8 @@ import NemoVerif.Lemmas.LifetimeVEq
 import NemoVerif.Lemmas.LifetimeVInv
 import NemoVerif.Lemmas.LifetimeCoreVM9
 import NemoVerif.Lemmas.LifetimeCoreVM9b
+import NemoVerif.Lemmas.LifetimeAct
+import NemoVerif.Lemmas.LifetimeActCoreVM
 namespace NemoVerif.C06
 open NemoVerif.Lifetime
 
@@ -1445,5 +1447,149 @@ example : LinkInv (Refine.absVM ν φ Refine.vmEx) := Refine.vmEx_linkInv ν φ
 example : ∃ vm', Refine.RefinedSteps ν φ Refine.vmEx vm' ∧ Refine.RefinedStep ν φ Refine.vmEx vm' := Refine.vmEx_refined ν φ
 
 end T3
+
+/-! ## T4 (wave 4): the activation reference count never exceeds the number of LIVE activators
+
+`liveRefs s [] r` (Models/LifetimeAdm.lean) counts the entries for `r` in the `child_flow_uids` of the instances that are
+alive (neither STOPPED nor FINISHED).  Every `activate r` statement whose StartFlow event is processed WHILE ITS SENDER
+IS ALIVE leaves exactly one such entry (first activation: `_start_flow`; later ones: the "already activated" branch,
+`activated += 1` and `child_flow_uids.append` together); when the sender ends, its child loop gives every entry back
+(`_abort_flow(child, deactivate_flow=True)`: `activated -= 1`) before the sender is marked STOPPED / FINISHED; nobody
+ever walks the child list of an ended instance again.  Seed C06-e (re-activation tested before the ended-sender guard)
+breaks exactly this: `dead_sender_reactivation_seeded_counterexample`. -/
+section T4
+
+/-- every admissible operation preserves the bound (the recursion of `_abort_flow` / `_finish_flow` / `EndScope` included:
+    `abortFlow_actB`, one induction on the fuel with the instance being ended exempt and its unprocessed child-list
+    entries as credit) -/
+theorem activation_count_step (s : State) (op : IOp) (hi : LifetimeInv s) (hadm : opAdm s op = true) (hb : ActCount s) :
+    ActCount (applyOp s op) :=
+  ActCount.step s op hi.cnt.ord hi.link hadm hb
+
+theorem activation_count_run : ∀ (l : List IOp) (s : State), LifetimeInv s → ActCount s → admFrom s l = true →
+    ActCount (l.foldl applyOp s)
+  | [], _, _, hb, _ => hb
+  | op :: l, s, hi, hb, ha => by
+    simp only [admFrom, Bool.and_eq_true] at ha
+    exact activation_count_run l (applyOp s op) (lifetime_inv_step s op hi) (activation_count_step s op hi ha.1 hb) ha.2
+
+/-- **PARTIAL** (full statement: `f.activated = liveRefs (run ops) [] r` — "the counter EQUALS the number of live
+    activators".  The equality is false of the code by design, not by defect: an explicit `deactivate` /
+    `StopFlow(deactivate=True)` decrements the counter of a reference instance while the flow that activated it lives
+    on and keeps its child-list entry — `activation_count_strict_after_deactivate` —, and the main flow, when it ends,
+    is reset to WAITING and keeps its list.  What the property needs — "an activated flow … stops when its last
+    activator ends" — is the upper bound, and that is what seed C06-e breaks.)
+
+    In EVERY state the operation machine reaches through admissible operations (`admFrom`: a first instance is created
+    with `activated ≤ 1`; checked by the driver on every operation of every replayed real trace), the activation counter
+    of every reference instance (an instance whose parent is an instance of another flow) is at most the number of
+    child-list entries that LIVE instances hold for it.  In particular: when the last live activator has ended the
+    counter is 0 (`activation_count_zero_without_live_activator`). -/
+theorem activation_count_is_live_activators_partial (ops : List IOp) (hadm : admFrom initState ops = true) (r : Nat) (f : Flow)
+    (hf : (run ops).flows r = some f) (hr : IsRef (run ops) f) : f.activated ≤ liveRefs (run ops) [] r := by
+  have h := activation_count_run ops initState lifetime_inv_init ActCount.init hadm
+  exact Nat.le_trans (h r f hf hr) (Nat.le_of_eq (Nat.add_zero _))
+
+/-- no live instance lists `r` any more ⇒ the counter of `r` is 0: nothing keeps the activated flow running -/
+theorem activation_count_zero_without_live_activator (ops : List IOp) (hadm : admFrom initState ops = true) (r : Nat) (f : Flow)
+    (hf : (run ops).flows r = some f) (hr : IsRef (run ops) f) (h0 : liveRefs (run ops) [] r = 0) : f.activated = 0 := by
+  have := activation_count_is_live_activators_partial ops hadm r f hf hr
+  omega
+
+/-- the executable form the driver evaluates on every replayed real state -/
+theorem activation_count_checked (ops : List IOp) (hadm : admFrom initState ops = true) : actCountB (run ops) = true :=
+  actCountB_of_actCount _ (activation_count_run ops initState lifetime_inv_init ActCount.init hadm)
+
+/-- the step the seed breaks, on `processStartFlow` itself: a re-activation (`activated += 1`) happens only for a
+    sender that is alive — and then the sender lists the instance once more -/
+theorem reactivation_requires_live_sender (s : State) (fid : Nat) (known act hasInst : Bool) (source : Nat) (pm : Nat → Bool)
+    (s' : State) (r : Nat) (h : processStartFlow s fid known act hasInst source pm = .ok (s', .reused r)) :
+    ∃ sf, s.flows source = some sf ∧ sf.status.dead = false := by
+  rcases processStartFlow_effect s fid known act hasInst source pm s' (.reused r) h with e | ⟨q, rf, sf, _, hsf, _, _, _, _⟩
+  · -- unchanged state: impossible for a re-activation only if the sender record exists; read it off the definition
+    cases hs : s.flows source with
+    | none =>
+      exfalso
+      unfold processStartFlow at h
+      split at h
+      · cases h
+      · dsimp only at h; rw [hs] at h; cases h
+    | some sf =>
+      refine ⟨sf, rfl, ?_⟩
+      cases hd : sf.status.dead with
+      | false => rfl
+      | true => exact absurd rfl ((processStartFlow_dead_sender s fid known act hasInst source pm s' _ sf hs hd h).2 r)
+  · refine ⟨sf, hsf, ?_⟩
+    cases hd : sf.status.dead with
+    | false => rfl
+    | true => exact absurd rfl ((processStartFlow_dead_sender s fid known act hasInst source pm s' _ sf hsf hd h).2 r)
+
+/-- scenario of seed C06-e in the operation machine: main (0) starts `sess` (1); `sess` activates `x` (2) and starts the
+    helper `S` (3); `S` executes `activate x` while alive (re-activation: counter 2, two live entries) -/
+def actOps : List IOp :=
+  [.status 0 .starting, .status 0 .started, .startChild 1 1 0 0, .status 1 .starting, .status 1 .started,
+   .startChild 2 2 1 1, .status 2 .starting, .status 2 .started,
+   .startChild 3 3 1 0, .status 3 .starting, .status 3 .started,
+   .reactivate 2 true true true 3 [2]]
+
+-- non-vacuity of `activation_count_is_live_activators_partial`: an admissible run, a reference instance, bound attained
+example : admFrom initState actOps = true ∧ isRefB (run actOps) ((run actOps).flows 2).get! = true ∧
+    ((run actOps).flows 2).map (·.activated) = some 2 ∧ liveRefs (run actOps) [] 2 = 2 := by decide
+
+-- … and when `S` is aborted its entry is given back: counter 1, one live entry
+example : ((run (actOps ++ [.abort 5 3 false])).flows 2).map (·.activated) = some 1 ∧
+    liveRefs (run (actOps ++ [.abort 5 3 false])) [] 2 = 1 := by decide
+
+/-- the state of the seed's history in which `S` has been stopped BEFORE its queued `activate x` is processed -/
+def deadSenderOps : List IOp :=
+  [.status 0 .starting, .status 0 .started, .startChild 1 1 0 0, .status 1 .starting, .status 1 .started,
+   .startChild 2 2 1 1, .status 2 .starting, .status 2 .started,
+   .startChild 3 3 1 0, .status 3 .starting, .status 3 .started, .abort 5 3 false]
+
+/-- **counterexample for the seeded StartFlow branch** (seed C06-e: re-activation tested before the ended-sender guard):
+    from a reachable state satisfying the invariant, the queued StartFlow of the stopped sender 3 is dropped by the code as
+    it is (`processStartFlow`: state unchanged), while the seeded branch counts it — counter 2 with ONE live entry: when
+    the genuine activator (1) ends, the counter only drops to 1 and `x` keeps running with no live activator. -/
+theorem dead_sender_reactivation_seeded_counterexample :
+    admFrom initState deadSenderOps = true ∧ actCountB (run deadSenderOps) = true ∧
+    (processStartFlow (run deadSenderOps) 2 true true true 3 (fun u => u == 2)).toOption.map (·.2) = some .ignored ∧
+    (processStartFlowSeeded (run deadSenderOps) 2 true true true 3 (fun u => u == 2)).toOption.map (·.2) = some (.reused 2) ∧
+    ((processStartFlowSeeded (run deadSenderOps) 2 true true true 3 (fun u => u == 2)).toOption.map fun x =>
+      (actCountB x.1, (x.1.flows 2).map (·.activated), liveRefs x.1 [] 2)) = some (false, some 2, 1) := by
+  decide
+
+/-- why the statement is an inequality: an explicit deactivation (`abort … deactivate_flow=True` issued from outside, the
+    `deactivate x` statement) lowers the counter while both activators live on (counter 1, two live entries) -/
+theorem activation_count_strict_after_deactivate :
+    ((run (actOps ++ [.abort 5 2 true])).flows 2).map (·.activated) = some 1 ∧
+    liveRefs (run (actOps ++ [.abort 5 2 true])) [] 2 = 2 := by decide
+
+end T4
+
+/-! ### T4 on the shared interpreter model (CoreVM) -/
+section T4c
+variable (ν φ : String → Nat)
+
+/-- PARTIAL (the full statement would quantify over all steps of `CoreVM.runToCompletion`; instance creation / `_start_flow`
+    — `createInst` / `linkInst`, which would need the admissibility hypothesis `activated ≤ 1` on the event — and the steps that are
+    not refined at all are not in the relation): the bound "activation counter of a reference instance ≤ number of child-list
+    entries held by LIVE instances" holds for the abstraction along every sequence of refined CoreVM OPERATION steps — outermost
+    `CoreVM.abortFlow` / `finishFlow`, the `EndScope` / label / effect-free elements of `slideStep`, the `StopFlow` / `FinishFlow`
+    events and the processing of a `StartFlow` event that does not create an instance (`CoreVM.processInternalEvent`: the dropped
+    event of an ended sender and the re-activation of an activated reference instance, the branch seed C06-e reorders) —,
+    together with `WF`, `OrdInv` and `LinkInv`, which it needs. -/
+theorem corevm_activation_count_partial (hν : Function.Injective ν) (hφ : Function.Injective φ) (vm vm' : CoreVM.VM)
+    (hw : Refine.WF vm) (ho : OrdInv (Refine.absVM ν φ vm)) (hl : LinkInv (Refine.absVM ν φ vm)) (hb : ActCount (Refine.absVM ν φ vm))
+    (h : Refine.RefinedOpSteps ν φ vm vm') :
+    Refine.WF vm' ∧ OrdInv (Refine.absVM ν φ vm') ∧ LinkInv (Refine.absVM ν φ vm') ∧ ActCount (Refine.absVM ν φ vm') :=
+  Refine.corevm_activation_count_partial ν φ hν hφ vm vm' hw ho hl hb h
+
+-- non-vacuity: `vmEx` satisfies all hypotheses and a refined operation step leaves it
+example : OrdInv (Refine.absVM ν φ Refine.vmEx) := Refine.vmEx_ordInv ν φ
+example : LinkInv (Refine.absVM ν φ Refine.vmEx) := Refine.vmEx_linkInv ν φ
+example : ActCount (Refine.absVM ν φ Refine.vmEx) := Refine.vmEx_actCount ν φ
+example : ∃ vm', Refine.RefinedOpSteps ν φ Refine.vmEx vm' ∧ Refine.RefinedOpStep ν φ Refine.vmEx vm' := Refine.vmEx_opRefined ν φ
+
+end T4c
 
 end NemoVerif.C06
